@@ -156,6 +156,17 @@ func VerifH_C18_limitin() {
 	} else {
 		sc.clientS = Settings{} // no SETTINGS frame from the client yet
 	}
+	if !vSymbolic() {
+		// native replay: the same fact seen from outside - a DATA frame one
+		// octet over the advertised 16384 is refused with FRAME_SIZE_ERROR
+		sc.br = vNewReader(vFrame(0x0, 0x0, 1, make([]byte, 16385))[:9])
+		err := sc.readLoop()
+		r := vClassify(vDrainWriter(sc))
+		e, isH2 := err.(Error)
+		vAssert((r.goaway && r.goawayCode == FrameSizeError) || (isH2 && e.Code() == FrameSizeError), "C18.limitin.own-advertised-limit")
+		vCover("C18.limitin.reached", true)
+		return
+	}
 	vRecordedMax = nil
 	_ = sc.readLoop()
 	vAssert(len(vRecordedMax) == 1, "C18.limitin.one-read")
